@@ -143,9 +143,57 @@ def blockedFields (root : CTy) (defNames : List String) (cp : String) : Option (
         let all := rootFieldNames root defNames
         some ((if cp != "input" then [cp] else []) ++ all.filter (fun f => !valid.contains f))
 
+inductive Step where
+  | key (k : String)
+  | elem            -- First() / Last() / Index(i): one element of a typed list
+  | cond (k : String) -- a filter `[@.k.F()]` whose condition reads the key k of the elements (F a test that every type admits)
+deriving Repr, DecidableEq
+
+/-- opPath.Validate restricted to identifier operations and element functions -/
+def validateSteps (root : CTy) (blocked : List String) : List Step → List String → Option (String × String) → Bool → VRes
+  | [], _, cur, _ => match cur with
+    | some (t, io) => .acc t io
+    | none => .acc "Root" "Single"
+  | .elem :: ss, p, cur, first =>
+    match cur with
+    | some (t, "Array") => validateSteps root blocked ss p (some (t, "Single")) first
+    | _ => .rej "other"
+  | .cond k :: ss, p, cur, first =>
+    -- the condition's key is a field of the elements (never compared with the blocked ROOT fields); the filter leaves the type of
+    -- the collection as it is
+    match cur with
+    | some (t, "Array") =>
+      (match findValueAtPath root (p ++ [k]) with
+       | none => .rej "notfound"
+       | some v => match kindOf v with
+         | none => .rej "other"
+         | some _ => validateSteps root blocked ss p (some (t, "Array")) first)
+    | _ => .rej "other"
+  | .key k :: ss, pathSoFar, cur, first =>
+    let stop : Option VRes := match cur with
+      | some (t, "Single") => if isPrimitive t then some (.rej "primitive") else none
+      | some (_, "Array") => some (.rej "array")
+      | _ => none
+    match stop with
+    | some r => r
+    | none =>
+      if first && blocked.contains k then .rej "blocked" else
+      let p := pathSoFar ++ [k]
+      match findValueAtPath root p with
+      | none => .rej "notfound"
+      | some v => match kindOf v with
+        | none => .rej "other"
+        | some ti => validateSteps root blocked ss p (some ti) false
+
 def validate (root : CTy) (path : List String) (cp : String) : VRes :=
   match blockedFields root [] cp with
   | none => .err
   | some blocked => validateKeys root blocked path [] none true
+
+/-- a path of keys and element functions (First / Last / Index) -/
+def validateS (root : CTy) (steps : List Step) (cp : String) : VRes :=
+  match blockedFields root [] cp with
+  | none => .err
+  | some blocked => validateSteps root blocked steps [] none true
 
 end Mp
